@@ -1,4 +1,4 @@
-import PoryProofs.LexPrintLoop
+import PoryProofs.LexPrintBool
 import PoryProofs.Properties.C02P
 /-
 L1 — "lex ∘ print = id": a token list, written as text in the obvious way, lexes back to the same
@@ -47,11 +47,24 @@ PROVED (nothing partial)
 * `parse_of_source`  : the bridge, instantiated on `C02P.parse_bool_correct_tokens`: for every expression `g` of the
                         reference grammar `SOr`, the SOURCE TEXT `render (pre :: printOr g ++ rparen :: rest)` — lexed by
                         `lexAll`, the lexer's own records and positions — is parsed by `parseBooleanExpression` into
-                        a tree with the value of the written expression, stopping at the `)`.
+                        a tree with the value of the written expression, stopping at the `)`.  Hypotheses: the
+                        printed tokens are `TokOK` and `AdjOK`.
+* `parse_of_source_names` : the same with the hypotheses on the NAMES occurring in `g` (`okOr g`, decidable,
+                        PoryProofs/LexPrintBool.lean: operand names are non-keyword identifiers, comparison values
+                        renderable `INT` / `IDENT` tokens); `printOr_good` shows that then all printed tokens are
+                        renderable, whatever the positions in `g`.
   Other token-level theorems that quantify over arbitrary token records (P1, P1b, C10b …) apply to the lexer's
   records in the same way once the lexed list is exhibited as the print of a re-decorated tree; for `SOr` this
   re-decoration is `C02P.or_retok` (inside `parse_bool_correct_tokens`).  No such lemma exists yet for the
-  statement grammar `StmtG.SStmt`, so the bridge is instantiated on the boolean grammar only.
+  statement grammar `StmtG.SStmt`, so the bridge is instantiated on the boolean grammar only
+  (`lex_render_records` is the form such a lemma would consume).
+* side results: `digit_not_letter` (LexPrintChars.lean; no character of the Unicode digit table is in the letter
+  table or `_`, so a decimal `INT` literal needs no side condition), `tokOK_ident`, `tokOK_keyword`, `tokOK_fixed`,
+  `tokOK_decimal`, `render_plain`.
+
+EVALUATION NOTE.  `decide +kernel` cannot evaluate the model's `isLetter` / `isDigit` on a character that is NOT
+in the table (`Array.any` over 623 ranges: ≈ 30 s per character), so `TokOK` is decided through the list form of
+the tables (`tokOKfast`, `isLetterL_eq`) and whole-lexer sanity checks are `#guard`s (as in P1.lean).
 
 Positions are not mentioned: they are what `C19.lexAll_positions` says about `lexAll` on any input.
 -/
@@ -66,7 +79,7 @@ def render (ts : List Tok) : String := renderWith " " ts
 
 /-- Without `STRINGTYPE` tokens a rendering is literally the spellings joined by the separator. -/
 theorem renderL_plain (sep : List Char) (ts : List Tok) (h : ∀ t ∈ ts, t.type ≠ .STRINGTYPE) :
-    renderL sep ts = (ts.map text).intercalate sep := by
+    renderL sep ts = List.intercalate sep (ts.map text) := by
   induction ts with
   | nil => rfl
   | cons t r ih =>
@@ -78,44 +91,46 @@ theorem renderL_plain (sep : List Char) (ts : List Tok) (h : ∀ t ∈ ts, t.typ
       simp [glue, h t (List.mem_cons_self ..), List.intercalate]
 
 theorem render_plain (ts : List Tok) (h : ∀ t ∈ ts, t.type ≠ .STRINGTYPE) :
-    (render ts).toList = (ts.map text).intercalate [' '] := by
+    (render ts).toList = List.intercalate [' '] (ts.map text) := by
   simp only [render, renderWith, String.toList_ofList]
   exact renderL_plain _ ts h
 
 /-! ### What `TokOK` contains -/
 
-/-- `TokOK` looks at type and literal only. -/
-theorem tokOK_congr {t t' : Tok} (h1 : t.type = t'.type) (h2 : t.lit = t'.lit) : TokOK t ↔ TokOK t' := by
-  unfold TokOK tokOK
-  rw [h1, h2]
-
 /-- An `IDENT` token is `TokOK` iff its literal is of the identifier class and is not a keyword. -/
 theorem tokOK_ident (t : Tok) (h : t.type = .IDENT) :
     TokOK t ↔ identLit t.lit.toList = true ∧ getIdentType t.lit = .IDENT := by
-  unfold TokOK tokOK
+  unfold TokOK tokOK tokOKw identLit
   have hf : ((TT.IDENT, t.lit) ∈ fixedToks) = False := by
     rw [fixedToks_eq]
     simp
   simp only [h, hf, decide_false, Bool.false_or, Bool.or_eq_true, Bool.and_eq_true, beq_iff_eq]
   constructor
-  · rintro ((((⟨h1, h2 | h2⟩) | ⟨h2, -⟩) | ⟨h2, -⟩) | ⟨h2, -⟩)
+  · rintro ((((⟨h2 | h2, h1⟩) | ⟨h2, -⟩) | ⟨h2, -⟩) | ⟨h2, -⟩)
     · exact ⟨h1, h2.symm⟩
     all_goals cases h2
   · rintro ⟨h1, h2⟩
-    exact Or.inl (Or.inl (Or.inl ⟨h1, Or.inl h2.symm⟩))
+    exact Or.inl (Or.inl (Or.inl ⟨Or.inl h2.symm, h1⟩))
 
 /-- Every keyword token with its keyword literal is `TokOK`. -/
 theorem tokOK_keyword : ∀ p ∈ Facts.keywords, ∀ t : Tok, t.type = p.2 → t.lit = p.1 → TokOK t := by
-  have key : ∀ p ∈ Facts.keywords, tokOK { type := p.2, lit := p.1 } = true := by decide +kernel
+  have key : ∀ p ∈ Facts.keywords, tokOKfast { type := p.2, lit := p.1 } = true := by decide +kernel
   intro p hp t h1 h2
-  exact (tokOK_congr (t' := { type := p.2, lit := p.1 }) h1 h2).2 (key p hp)
+  exact (tokOK_congr (t' := { type := p.2, lit := p.1 }) h1 h2).2 (TokOK.of_fast (key p hp))
 
 /-- Every punctuation / operator token with its literal is `TokOK`. -/
 theorem tokOK_fixed : ∀ p ∈ fixedToks, ∀ t : Tok, t.type = p.1 → t.lit = p.2 → TokOK t := by
   intro p hp t h1 h2
-  unfold TokOK tokOK
+  unfold TokOK tokOK tokOKw
   rw [h1, h2]
   simp [hp]
+
+/-- A decimal `INT` token: any non-empty run of (Unicode) digits — no character is both a digit and
+a letter (`digit_not_letter`), so the lexer never takes it for an identifier. -/
+theorem tokOK_decimal (t : Tok) (h : t.type = .INT) (hl : decLit t.lit.toList = true) : TokOK t := by
+  unfold TokOK tokOK tokOKw
+  unfold decLit at hl
+  simp [h, hl]
 
 /-! ### lex ∘ render = id -/
 
@@ -123,7 +138,6 @@ theorem sepOK_of_string (sep : String) (h1 : sep ≠ "") (h2 : ∀ c ∈ sep.toL
     SepOK sep.toList := by
   refine ⟨fun h => h1 ?_, h2⟩
   rw [← String.ofList_toList (s := sep), h]
-  rfl
 
 /-- **L1 for any whitespace separator.** -/
 theorem lex_render_sep (sep : String) (h1 : sep ≠ "") (h2 : ∀ c ∈ sep.toList, isWs c = true)
@@ -173,13 +187,33 @@ theorem lex_render_nostr (ts : List Tok)
 
 /-! ### The per-token hypothesis alone is not enough -/
 
-/-- Two string literals separated by whitespace are ONE literal for the lexer. -/
+theorem fuse_parts_ok : LexString.PartsOK [⟨"a".toList, "a".toList, " ".toList⟩] := by
+  intro q hq
+  simp only [List.mem_singleton] at hq
+  subst hq
+  exact ⟨LexString.Part.plain _ (by decide), by decide⟩
+
+/-- the two-part literal `"a" "b"` as one lexeme -/
+def fuseL : Lexeme :=
+  ⟨_, _, LexString.okStr, LexString.lexemeAt_string [⟨"a".toList, "a".toList, " ".toList⟩]
+    fuse_parts_ok "b".toList "b".toList (LexString.Part.plain _ (by decide))⟩
+
+/-- Two string literals separated by whitespace are ONE literal for the lexer (proved from
+`LexString.lexemeAt_string` through `LexLayout.lexAllE_layout`, not by evaluation). -/
 theorem adjacent_strings_fuse :
     (∀ t ∈ [C02P.tk .STRING "a", C02P.tk .STRING "b"], TokOK t) ∧
     render [C02P.tk .STRING "a", C02P.tk .STRING "b"] = "\"a\" \"b\"" ∧
     (Lexer.lexAll (render [C02P.tk .STRING "a", C02P.tk .STRING "b"]).toList).map
       (fun t => (t.type, t.lit)) = [(.STRING, "a\nb"), (.EOF, "")] := by
-  refine ⟨by decide, by decide, by decide +kernel⟩
+  refine ⟨by decide +kernel, by decide +kernel, ?_⟩
+  have h := lexAllE_layout [] [(fuseL, [])] (.done _)
+    ⟨.done _, by show LexString.okStr _; show ch _ ≠ '"'; decide, trivial⟩
+  rw [← lexAll_erased] at h
+  have e : LexLayout.render [] [(fuseL, [])] =
+      (render [C02P.tk .STRING "a", C02P.tk .STRING "b"]).toList := by decide +kernel
+  rw [e] at h
+  rw [show (fun t : Tok => (t.type, t.lit)) = C19b.erase from rfl, h]
+  decide +kernel
 
 /-- **The statement of L1 with `∀ t ∈ ts, TokOK t` as its only hypothesis is false.** -/
 theorem lex_render_needs_adj :
@@ -191,21 +225,29 @@ theorem lex_render_needs_adj :
   rw [adjacent_strings_fuse.2.2] at h1
   exact absurd h1 (by decide)
 
-/-- A string type separated from its literal is an identifier: this is why `render` glues them. -/
+/-- A string type separated from its literal is an identifier: this is why `render` glues them
+(both halves by `lex_render`). -/
 theorem stringtype_needs_glue :
     (Lexer.lexAll "ascii \"x\"".toList).map (fun t => (t.type, t.lit)) =
       [(.IDENT, "ascii"), (.STRING, "x"), (.EOF, "")] ∧
     (Lexer.lexAll "ascii\"x\"".toList).map (fun t => (t.type, t.lit)) =
       [(.STRINGTYPE, "ascii"), (.STRING, "x"), (.EOF, "")] := by
-  refine ⟨by decide +kernel, by decide +kernel⟩
+  have h1 := lex_render [C02P.tk .IDENT "ascii", C02P.tk .STRING "x"] (by decide +kernel) (by decide)
+  have h2 := lex_render [C02P.tk .STRINGTYPE "ascii", C02P.tk .STRING "x"] (by decide +kernel) (by decide)
+  have e1 : render [C02P.tk .IDENT "ascii", C02P.tk .STRING "x"] = "ascii \"x\"" := by decide +kernel
+  have e2 : render [C02P.tk .STRINGTYPE "ascii", C02P.tk .STRING "x"] = "ascii\"x\"" := by decide +kernel
+  rw [e1] at h1
+  rw [e2] at h2
+  exact ⟨h1, h2⟩
 
 /-! ### Records form -/
 
 theorem sameText_of_erase {ts us : List Tok}
     (h : ts.map (fun t => (t.type, t.lit)) = us.map (fun t => (t.type, t.lit))) :
     C02P.SameText ts us := by
+  have e : C02P.erase = fun t => C02P.tk t.type t.lit := rfl
   have := congrArg (List.map fun p : TT × String => C02P.tk p.1 p.2) h
-  simpa [C02P.SameText, List.map_map, Function.comp_def, C02P.erase] using this
+  simpa [C02P.SameText, List.map_map, Function.comp_def, e] using this
 
 /-- **L1 on records**: the lexer's output on `render ts` is a list `ts'` with the text of `ts`
 (same types and literals, the lexer's positions) followed by one `EOF` token. -/
@@ -255,8 +297,41 @@ theorem parse_of_source (env : Env) (scriptName : String) (g : SOr) (negated : B
   obtain ⟨t, ht, hv⟩ := parse_bool_correct_tokens env scriptName g negated ts (sameText_of_erase h2)
     pre' rp' rest' (h4.1.trans hrp) s (by rw [e1, e2, e3]) hconst fuel (by omega)
   refine ⟨t, rp', rest', ht, ?_, hv⟩
-  simp only [List.map_cons, h5, Prod.mk.injEq, List.cons_append]
+  simp only [List.map_cons, h5, List.cons_append]
   rw [h4.1, h4.2]
+
+open Pory.Parser Pory.Spec Pory.C02P in
+/-- **parse_of_source, with the side conditions on the NAMES in `g`** (`okOr g`: every operand name
+is an identifier that is not a keyword, every comparison value a renderable `INT` / `IDENT` token —
+`LexPrintBool.lean`): for EVERY such expression of the reference grammar, and every renderable
+continuation `) rest`, the source text parses to a tree with the value of the written expression. -/
+theorem parse_of_source_names (env : Env) (scriptName : String) (g : SOr) (negated : Bool)
+    (pre rparen : Tok) (rest : List Tok) (hrp : rparen.type = .RPAREN)
+    (hg : okOr g = true) (hpre : Good pre)
+    (hrest : ∀ t ∈ rparen :: rest, TokOK t) (hadj : AdjOK (rparen :: rest))
+    (s : PState)
+    (hs : s.toks = Lexer.lexAll (render (pre :: (printOr g ++ rparen :: rest))).toList)
+    (hconst : s.constants = [])
+    (fuel : Nat) (hfuel : 2 * (printOr g).length + 1 ≤ fuel) :
+    ∃ t rp' rest',
+      (parseBooleanExpression env scriptName false negated fuel).run s =
+        .ok ((t, {}), { s with toks := rp' :: rest' }) ∧
+      (rp' :: rest').map (fun t => (t.type, t.lit)) =
+        (rparen :: rest).map (fun t => (t.type, t.lit)) ++ [(.EOF, "")] ∧
+      ∀ w h, evalTree w h t = (evalOr id w h g != negated) := by
+  have hgood : ∀ t ∈ pre :: printOr g, Good t := by
+    intro t ht
+    rcases List.mem_cons.1 ht with rfl | ht
+    · exact hpre
+    · exact printOr_good g hg t ht
+  refine parse_of_source env scriptName g negated pre rparen rest hrp ?_ ?_ s hs hconst fuel hfuel
+  · intro t ht
+    rw [← List.cons_append] at ht
+    rcases List.mem_append.1 ht with ht | ht
+    · exact (hgood t ht).1
+    · exact hrest t ht
+  · rw [← List.cons_append]
+    exact adjOK_append_good _ _ hgood hadj
 
 /-! ### Non-vacuity -/
 
@@ -275,7 +350,7 @@ def exSrc : String :=
 
 theorem exToks_ok : ∀ t ∈ exToks, TokOK t := by decide +kernel
 theorem exToks_adj : AdjOK exToks := by decide
-theorem exSrc_eq : render exToks = exSrc := by decide
+theorem exSrc_eq : render exToks = exSrc := by decide +kernel
 
 /-- The rendering lexes back — by the theorem. -/
 theorem ex_lex : (Lexer.lexAll exSrc.toList).map (fun t => (t.type, t.lit)) =
@@ -283,14 +358,31 @@ theorem ex_lex : (Lexer.lexAll exSrc.toList).map (fun t => (t.type, t.lit)) =
   rw [← exSrc_eq]
   exact lex_render exToks exToks_ok exToks_adj
 
-/-- The same by evaluation (sanity check of model and statement), also for the source as one would
-write it by hand: by C19b (layout independence) the spacing does not matter. -/
-example : (Lexer.lexAll exSrc.toList).map (fun t => (t.type, t.lit)) =
-    exToks.map (fun t => (t.type, t.lit)) ++ [(.EOF, "")] := by decide +kernel
+-- sanity checks by evaluation (as in P1.lean; not proofs — the kernel cannot run the model's `Array.any`
+-- over the Unicode tables in reasonable time): the rendering, and the source as one would write it by hand
+-- (by C19b, layout independence, the spacing does not matter)
+#guard (Lexer.lexAll exSrc.toList).map (fun t => (t.type, t.lit)) ==
+  exToks.map (fun t => (t.type, t.lit)) ++ [(.EOF, "")]
+#guard (Lexer.lexAll "script S { if (flag(A) && !var(B) == 0x1F) { msgbox(\"hi\") } }".toList).map
+  (fun t => (t.type, t.lit)) == exToks.map (fun t => (t.type, t.lit)) ++ [(.EOF, "")]
 
-example : (Lexer.lexAll "script S { if (flag(A) && !var(B) == 0x1F) { msgbox(\"hi\") } }".toList).map
-    (fun t => (t.type, t.lit)) = exToks.map (fun t => (t.type, t.lit)) ++ [(.EOF, "")] := by
-  decide +kernel
+/-- records form on the example: the lexer's 25 records and its `EOF` record -/
+example : ∃ ts' eof, Lexer.lexAll exSrc.toList = ts' ++ [eof] ∧ SameText ts' exToks ∧ eof.type = .EOF := by
+  obtain ⟨ts', eof, h1, h2, -, h3, -⟩ := lex_render_records exToks exToks_ok exToks_adj
+  rw [exSrc_eq] at h1
+  exact ⟨ts', eof, h1, h2, h3⟩
+
+/-- per-token hypotheses only: `while ( var ( X ) >= -3 )` -/
+example : (Lexer.lexAll "while ( var ( X ) >= -3 )".toList).map (fun t => (t.type, t.lit)) =
+    [(.WHILE, "while"), (.LPAREN, "("), (.VAR, "var"), (.LPAREN, "("), (.IDENT, "X"), (.RPAREN, ")"),
+      (.GTE, ">="), (.INT, "-3"), (.RPAREN, ")"), (.EOF, "")] := by
+  have h := lex_render_nostr [tk .WHILE "while", tk .LPAREN "(", tk .VAR "var", tk .LPAREN "(", tk .IDENT "X",
+    tk .RPAREN ")", tk .GTE ">=", tk .INT "-3", tk .RPAREN ")"] (by decide +kernel)
+  have e : render [tk .WHILE "while", tk .LPAREN "(", tk .VAR "var", tk .LPAREN "(", tk .IDENT "X",
+    tk .RPAREN ")", tk .GTE ">=", tk .INT "-3", tk .RPAREN ")"] = "while ( var ( X ) >= -3 )" := by
+    decide +kernel
+  rw [e] at h
+  exact h
 
 /-- A rendering with a string type, a raw string, a negative number, a backslash inside a literal
 and two literals kept apart by a comma; one token per line. -/
@@ -300,7 +392,7 @@ def exToks2 : List Tok :=
    tk .INT "0x", tk .LTE "<=", tk .ASSIGN "=", tk .ASSIGN "="]
 
 example : render exToks2 =
-    "text T { ascii\"a\\nb c\" , \"\" } raw `\n  .byte 1` -12 007 0x <= = =" := by decide
+    "text T { ascii\"a\\nb c\" , \"\" } raw `\n  .byte 1` -12 007 0x <= = =" := by decide +kernel
 
 example : (Lexer.lexAll (renderWith "\n" exToks2).toList).map (fun t => (t.type, t.lit)) =
     exToks2.map (fun t => (t.type, t.lit)) ++ [(.EOF, "")] :=
@@ -314,7 +406,7 @@ def exG : SOr :=
 def exCondSrc : String := "( flag ( A ) && ! var ( B ) || var ( C ) == 0x1F ) {"
 
 theorem exCondSrc_eq :
-    render (tk .LPAREN "(" :: (printOr exG ++ tk .RPAREN ")" :: [tk .LBRACE "{"])) = exCondSrc := by decide
+    render (tk .LPAREN "(" :: (printOr exG ++ tk .RPAREN ")" :: [tk .LBRACE "{"])) = exCondSrc := by decide +kernel
 
 /-- **The bridge on a concrete source text**: the parser, run on the lexer's records for
 `( flag ( A ) && ! var ( B ) || var ( C ) == 0x1F ) {`, returns a tree whose value is
@@ -330,6 +422,22 @@ example (env : Parser.Env) (sn : String) (s : Parser.PState) (hs : s.toks = Lexe
     [tk .LBRACE "{"] rfl (by decide +kernel) (by decide) s (by rw [exCondSrc_eq]; exact hs) hc 60 (by decide)
   exact ⟨t, rp', rest', h1, h2, fun w h => by simpa using h3 w h⟩
 
+/-- the same through `parse_of_source_names`: the conditions are on `exG`'s names (`okOr`, decidable), and
+what follows the `)` may contain string literals -/
+example (env : Parser.Env) (sn : String) (s : Parser.PState)
+    (hs : s.toks = Lexer.lexAll (render (tk .LPAREN "(" :: (printOr exG ++ tk .RPAREN ")" ::
+      [tk .LBRACE "{", tk .IDENT "msgbox", tk .LPAREN "(", tk .STRINGTYPE "ascii", tk .STRING "hi", tk .RPAREN ")",
+        tk .RBRACE "}"]))).toList)
+    (hc : s.constants = []) :
+    ∃ t rp' rest',
+      (Parser.parseBooleanExpression env sn false false 60).run s =
+        .ok ((t, {}), { s with toks := rp' :: rest' }) ∧
+      ∀ w h, evalTree w h t = evalOr id w h exG := by
+  obtain ⟨t, rp', rest', h1, -, h3⟩ := parse_of_source_names env sn exG false (tk .LPAREN "(") (tk .RPAREN ")")
+    _ rfl (by decide +kernel) ⟨by decide +kernel, by decide, by decide⟩ (by decide +kernel) (by decide) s hs hc 60
+    (by decide)
+  exact ⟨t, rp', rest', h1, fun w h => by simpa using h3 w h⟩
+
 end Example
 
 #print axioms lex_render
@@ -338,6 +446,7 @@ end Example
 #print axioms lex_render_nostr
 #print axioms lex_render_needs_adj
 #print axioms parse_of_source
+#print axioms parse_of_source_names
 #print axioms tokOK_ident
 #print axioms tokOK_keyword
 
